@@ -313,7 +313,7 @@ type caseResult struct {
 	transc   bool
 	wrote    bool
 	refOut   bool
-	silent   bool // a traced call succeeded on an outside path without any visible change in the dump
+	silent   bool  // a traced call succeeded on an outside path without any visible change in the dump
 	ties     []int // size of the charset tie set at each detection of this execution
 }
 
@@ -677,6 +677,22 @@ func (s *sandbox) runCase(c *caseSpec) (res caseResult, engineErr error) {
 		res.Err = err.Error()
 	}
 	res.Ops = append([]opRec(nil), mon.ops...)
+	// Unzip re-stamps the directories it created by ranging over a Go map: the order of those (commuting) Chtimes calls
+	// is random. Runs of consecutive Chtimes calls are put in path order so that a case has one canonical trace.
+	for i := 0; i < len(res.Ops); {
+		j := i
+		for j < len(res.Ops) && res.Ops[j].Kind == string(vfsx.KChtimes) {
+			j++
+		}
+		if j-i > 1 {
+			run := res.Ops[i:j]
+			sort.SliceStable(run, func(a, b int) bool { return run[a].Path < run[b].Path })
+		}
+		if j == i {
+			j++
+		}
+		i = j
+	}
 	res.Blocked = append([]opRec(nil), mon.blocked...)
 
 	add := func(sig, detail string) {
@@ -1156,6 +1172,7 @@ func TestProfile(t *testing.T) {
 		t.Skip()
 	}
 	start := time.Now()
+	defer os.RemoveAll(filepath.Dir(sandboxRoot(0)))
 	r := worker(0, n)
 	fmt.Printf("evaluations=%d in %v (%.0f us/case) engine=%v\n", r.Evaluations, time.Since(start), float64(time.Since(start).Microseconds())/float64(r.Evaluations), r.EngineErrors)
 	for k, v := range r.ErrKinds {
